@@ -177,8 +177,24 @@ def channel_step_rows(repo, col, R):
             return q.args[2], q.args[0]
         if a.op == "sub":
             return a.args[1], a.args[0]
+        if a.op == "dictcomp" and len(a.args) == 3:      # {k: D[k][rows] for k in names}
+            k_, v_ = a.args[0], a.args[1]
+            if v_.op == "sub" and v_.args[0].op == "sub" and v_.args[0].args[1].key() == k_.key():
+                return v_.args[1], v_.args[0].args[0]
+            if v_.op == "sub" and v_.args[1].key() == k_.key() and v_.args[0].op == "param":
+                whole.append(v_)
         return None, None
+    whole = []
     (r_s, src_s), (r_v, src_v), (r_p, src_p) = rows_of(args[0]), rows_of(args[2]), rows_of(args[3])
+    for lab_, a_ in (("states", args[0]), ("voltages", args[2]), ("params", args[3])):
+        if a_.op == "param" or (a_.op == "sub" and a_.args[0].op == "param" and a_.args[1].op == "const"):
+            whole.append(a_)       # `states` / `params` / `states['v']` as they are
+    for w_ in whole:
+        col.bad(R, fi, "update_states(states, dt, voltages, params): arguments hold the channel's own rows",
+                f"`{w_.short(60)}` hands whole arrays (all compartments) to update_states: the channel is stepped in compartments that "
+                f"do not carry it, and the result no longer matches the rows it is written back to", node=call)
+    if whole:
+        return
     if r_s is None or r_v is None or r_p is None:
         col.unk(R, fi, "update_states(states, dt, voltages, params): one row selector", "a gather was not recognised", node=call)
         return
